@@ -5,7 +5,7 @@
     obs   [err, result]      outcome on the shared parser object
     fresh [err, result]      outcome of the same request on a fresh parser object
     other [err, result]      outcome of the same request in the other leniency mode (fresh parser)
-    expect                   "" or the error class a single-fault mutation must produce in strict mode
+    mut [kind, j]            kind "" or the single fault applied to the rendered recipe (ArgsSpell.MutLine)
     untouched                TRUE iff argv list, raw-args tokens and format listings were the same after the call
     hasRecipe, recipe        the recipe (ArgsSpell) the driver rendered the line from, for well-formed lines (C01)
     hasExtra, extra          access by position / short name / dictionaries, observed on obs when it succeeded]
@@ -33,15 +33,18 @@ Clauses(e) ==
   /\ Check(tid, l, "P.errors.documented_only", e.obs.err, e.obs.err \in Errors /\ e.other.err \in Errors)
   /\ Check(tid, l, "P.lenient.no_parse_error", Lenient(e).err, Lenient(e).err \in {NoErr, "ValueError"})
   /\ Check(tid, l, "P.lenient.same_as_strict", "", Strict(e).err = NoErr => Lenient(e) = Strict(e))
-  /\ Check(tid, l, "P.mutation.error_class", e.expect, e.expect # "" => Strict(e).err = e.expect)
-  /\ Check(tid, l, "H.recipe.render", "", e.hasRecipe => e.line = Render(e.f, e.recipe))
+  /\ Check(tid, l, "H.recipe.render", "", (e.hasRecipe /\ e.mut.kind = "") => e.line = Render(e.f, e.recipe))
+  /\ Check(tid, l, "H.mutation.render", e.mut.kind, e.mut.kind # "" => e.line = MutLine(e.f, e.recipe, e.mut))
+  /\ Check(tid, l, "P.mutation.error_class", e.mut.kind,
+           (e.mut.kind # "" /\ MutPre(e.f, e.recipe, e.mut)) => Strict(e).err = MutExpect(e.mut))
   \* a recipe the (deliberately sloppy) random generator made but which is not a spelling: counted, nothing claimed
   /\ Note(tid, l, "H.recipe.not_wellformed", e.hasRecipe => WellFormed(e.f, e.recipe))
+  /\ Note(tid, l, "H.mutation.not_applicable", e.mut.kind # "" => MutPre(e.f, e.recipe, e.mut))
   /\ Check(tid, l, "P.roundtrip.strict", Strict(e).err,
-           (e.hasRecipe /\ WellFormed(e.f, e.recipe)) =>
+           (e.hasRecipe /\ e.mut.kind = "" /\ WellFormed(e.f, e.recipe)) =>
               (Strict(e).err = NoErr /\ Strict(e).result = Intended(e.f, AsgOf(e.f, e.recipe))))
   /\ Check(tid, l, "P.roundtrip.lenient", Lenient(e).err,
-           (e.hasRecipe /\ WellFormed(e.f, e.recipe)) =>
+           (e.hasRecipe /\ e.mut.kind = "" /\ WellFormed(e.f, e.recipe)) =>
               (Lenient(e).err = NoErr /\ Lenient(e).result = Intended(e.f, AsgOf(e.f, e.recipe))))
   /\ Check(tid, l, "P.access.by_position", "", e.hasExtra => (e.extra.avalPos = e.obs.result.aval /\ e.extra.asetPos = e.obs.result.aset))
   /\ Check(tid, l, "P.access.by_short_name", "", e.hasExtra => (e.extra.ovalShort = e.obs.result.oval /\ e.extra.osetShort = e.obs.result.oset))
